@@ -30,7 +30,10 @@ var All = map[string]func(*Ctx){
 		c.hasherPassThrough()
 		c.successResets("C04.success-resets")
 	}),
-	"C05": seq(C05, func(c *Ctx) { c.moduleCopied("C05.instance") }),
+	"C05": seq(C05, func(c *Ctx) {
+		c.moduleCopied("C05.instance")
+		c.secretEntropy("C05.entropy")
+	}),
 	"C06": seq(C06, func(c *Ctx) { c.ctxUserFirst("C06.subject") }),
 	"C07": seq(C07, func(c *Ctx) {
 		c.logoutClear("C07.logout-cookie", "C07.logout-cookie", true)
@@ -38,6 +41,7 @@ var All = map[string]func(*Ctx){
 		c.ctxUserFirst("C07.subject")
 		c.rememberOnlyOnTrue("C07.on-request")
 		c.oauthRememberLiteral("C07.on-request")
+		c.secretEntropy("C07.entropy")
 	}),
 	"C08": seq(C08, func(c *Ctx) {
 		c.mwOutermost("C08.outermost")
@@ -51,15 +55,20 @@ var All = map[string]func(*Ctx){
 		c.noStateAfterWrite("C11.before-write")
 		c.readStateErrors("C11.read-err")
 	}),
-	"C12": seq(C12, (*Ctx).smsInvariant, func(c *Ctx) { c.localizeFallback("C12.status-text") }),
+	"C12": seq(C12, (*Ctx).smsInvariant, func(c *Ctx) {
+		c.localizeFallback("C12.status-text")
+		c.secretEntropy("C12.entropy")
+	}),
 	"C13": seq(C13, (*Ctx).c12Recovery, func(c *Ctx) {
 		c.localizeFallback("C13.status-text")
 		c.halfAuthUpgradeGated("C13.halfauth-upgrade")
+		c.secretEntropy("C13.entropy")
 	}),
 	"C14": seq(C14, func(c *Ctx) {
 		c.flushUnmodified("C14.queue")
 		c.providerErrors("C14.details-err")
 		c.providerUIDVerbatim("C14.details-uid")
+		c.secretEntropy("C14.entropy")
 	}),
 	"C15": seq(C15, func(c *Ctx) { c.oauthParamsReset("C15.params-reset") }),
 	"C16": seq(C16, func(c *Ctx) {
